@@ -6,146 +6,204 @@ import YaegiVerif.Expected.C10
 namespace YaegiVerif.Proofs.C10
 open YaegiVerif YaegiVerif.RunId
 
-/-- bindings that read the id at the time of the call -/
-def isLate : Binding → Bool
-  | .callee => true
-  | .root => true
-  | .fixed _ _ => false
-
 /-- invariant: a named function or a method is bound late (`callee`), whatever happened before -/
 def NamedLate (h : HSt) : Prop := ∀ d ∈ h.defs, (d.kind = .named ∨ d.kind = .method) → d.binding = .callee
+
+theorem leave_defs (F : RunIdFacts) (h : HSt) : (h.leave F).defs = h.defs := rfl
+theorem refresh_defs (F : RunIdFacts) (h : HSt) : (h.refresh F).defs = h.defs := rfl
+
+/-- the definitions after a use: the used one has one more call, nothing else changes -/
+theorem use_defs (F : RunIdFacts) (h : HSt) (i : Nat) (via : Via) (x : Nat) :
+    (stepH F h (.use i via x)).defs = h.defs ∨
+    ∃ d, h.defs[i]? = some d ∧ (stepH F h (.use i via x)).defs = h.defs.set i { d with calls := d.calls + 1 } := by
+  cases via with
+  | eval =>
+    simp only [stepH]
+    cases hg : (h.refresh F).defs[i]? with
+    | none => left; simp [leave_defs, refresh_defs]
+    | some d =>
+      simp only []
+      split
+      · right; exact ⟨d, by simpa [refresh_defs] using hg, by simp [leave_defs, refresh_defs]⟩
+      · left; simp [leave_defs, refresh_defs]
+  | host =>
+    simp only [stepH]
+    cases hg : h.defs[i]? with
+    | none => left; rfl
+    | some d =>
+      simp only []
+      split
+      · right; exact ⟨d, rfl, rfl⟩
+      · left; rfl
 
 theorem namedLate_step (F : RunIdFacts) (h : HSt) (ev : Ev) (hn : NamedLate h) : NamedLate (stepH F h ev) := by
   cases ev with
   | define k a b =>
     intro d hd hk
-    simp only [stepH, HSt.refresh, List.mem_append, List.mem_cons, List.not_mem_nil, or_false] at hd
+    simp only [stepH, HSt.refresh, HSt.leave, List.mem_append, List.mem_cons, List.not_mem_nil, or_false] at hd
     rcases hd with hd | hd
     · exact hn d hd hk
     · subst hd
       rcases hk with hk | hk <;> simp only at hk <;> subst hk <;> rfl
   | use i via x =>
     intro d hd hk
-    simp only [stepH] at hd
-    have hdefs : ∀ h1 : HSt, h1.defs = h.defs → ∀ d ∈ (match h1.defs[i]? with
-        | none => h1
-        | some d => if alive F h1 d then { h1 with defs := h1.defs.set i { d with calls := d.calls + 1 }, results := value d x :: h1.results }
-                    else { h1 with results := 0 :: h1.results }).defs, (d.kind = .named ∨ d.kind = .method) → d.binding = .callee := by
-      intro h1 he d hd hk
-      cases hg : h1.defs[i]? with
-      | none => simp only [hg] at hd; rw [he] at hd; exact hn d hd hk
-      | some d0 =>
-        simp only [hg] at hd
-        split at hd
-        · rcases List.mem_or_eq_of_mem_set hd with hd | hd
-          · rw [he] at hd; exact hn d hd hk
-          · subst hd
-            have hm : d0 ∈ h.defs := by rw [← he]; exact List.mem_of_getElem? hg
-            exact hn d0 hm hk
-        · rw [he] at hd; exact hn d hd hk
-    cases via with
-    | eval => exact hdefs (h.refresh F) rfl d hd hk
-    | host => exact hdefs h rfl d hd hk
+    rcases use_defs F h i via x with he | ⟨d0, hg, he⟩
+    · rw [he] at hd; exact hn d hd hk
+    · rw [he] at hd
+      rcases List.mem_or_eq_of_mem_set hd with hd | hd
+      · exact hn d hd hk
+      · subst hd
+        exact hn d0 (List.mem_of_getElem? hg) hk
   | cancelled c =>
     intro d hd hk
-    cases c <;> simp only [stepH, HSt.refresh] at hd <;> exact hn d hd hk
+    cases c <;> simp only [stepH, HSt.refresh, HSt.leave] at hd <;> exact hn d hd hk
 
 theorem namedLate_run (F : RunIdFacts) (evs : List Ev) (h : HSt) (hn : NamedLate h) : NamedLate (runHist F h evs) := by
   induction evs generalizing h with
   | nil => exact hn
   | cons e es ih => exact ih _ (namedLate_step F h e hn)
 
-theorem use_eval_alive (F : RunIdFacts) (h : HSt) (i x : Nat) (d : Def) (hd : h.defs[i]? = some d)
-    (ha : alive F (h.refresh F) d = true) : (stepH F h (.use i .eval x)).results = value d x :: h.results := by
-  have hd' : (h.refresh F).defs[i]? = some d := by simpa [HSt.refresh] using hd
-  simp only [stepH, hd', ha, if_true]
-  simp [HSt.refresh]
-
-/-- the domain (decidable): definitions are named functions, methods or method values bound at top level, and
-    uses are evaluations of call expressions; cancelled evaluations of every kind are allowed anywhere -/
-def DomEv : Ev → Bool
-  | .define k _ _ => k == .named || k == .method || k == .methodValueTop
-  | .use _ via _ => via == .eval
-  | .cancelled _ => true
-
-def Dom (evs : List Ev) : Bool := evs.all DomEv
-
 /-- forget what the specification does not have: ids and bindings -/
 def erase (h : HSt) : HSt :=
   { id := 0, rootId := 0, defs := h.defs.map (fun d => { d with binding := .callee }), results := h.results }
 
-def AllLate (h : HSt) : Prop := ∀ d ∈ h.defs, isLate d.binding = true
+/-! ### with the facts of the repaired interpreter: between two events the root frame carries the interpreter's id -/
 
-theorem late_alive (h : HSt) (d : Def) (hl : isLate d.binding = true) :
-    alive Expected.C10.facts (h.refresh Expected.C10.facts) d = true := by
-  cases hb : d.binding with
-  | callee => simp [alive, useFrameId, hb, HSt.refresh, guardOk, newId, Expected.C10.facts, Expected.C09.facts]
-  | root => simp [alive, useFrameId, hb, HSt.refresh, guardOk, newId, Expected.C10.facts, Expected.C09.facts]
-  | fixed s c => rw [hb] at hl; cases hl
+/-- **The id invariant of histories**: whenever no evaluation is running, the root frame carries the interpreter's
+    current id (`Execute` refreshes it when it starts and, deferred, when it returns — a cancelled `Execute` included) -/
+def Synced (h : HSt) : Prop := h.rootId = h.id
 
-theorem dom_step (h : HSt) (ev : Ev) (hd : DomEv ev = true) (hl : AllLate h) :
-    AllLate (stepH Expected.C10.facts h ev) ∧ erase (stepH Expected.C10.facts h ev) = stepSpec (erase h) ev := by
+theorem synced_step (h : HSt) (ev : Ev) (hs : Synced h) : Synced (stepH Expected.C10.facts h ev) := by
+  cases ev with
+  | define k a b => simp [Synced, stepH, HSt.refresh, HSt.leave, Expected.C10.facts, Expected.C09.facts]
+  | use i via x =>
+    cases via with
+    | eval => simp [Synced, stepH, HSt.leave, Expected.C10.facts, Expected.C09.facts]
+    | host =>
+      simp only [Synced, stepH]
+      cases h.defs[i]? with
+      | none => exact hs
+      | some d => simp only []; split <;> exact hs
+  | cancelled c =>
+    cases c <;> simp [Synced, stepH, HSt.refresh, HSt.leave, Expected.C10.facts, Expected.C09.facts]
+
+/-- the site of a binding made by `bindingOf` is never the site of declared functions -/
+def FvBound (h : HSt) : Prop := ∀ d ∈ h.defs, ∀ c, d.binding ≠ .fixed .call c
+
+theorem fvBound_step (F : RunIdFacts) (h : HSt) (ev : Ev) (hn : FvBound h) : FvBound (stepH F h ev) := by
   cases ev with
   | define k a b =>
-    have hk : bindingOf Expected.C10.facts (h.refresh Expected.C10.facts) k = .callee ∨
-        bindingOf Expected.C10.facts (h.refresh Expected.C10.facts) k = .root := by
-      cases k <;> simp [DomEv] at hd <;> simp [bindingOf]
-    refine ⟨?_, ?_⟩
-    · intro d hdm
-      simp only [stepH, HSt.refresh, List.mem_append, List.mem_cons, List.not_mem_nil, or_false] at hdm
-      rcases hdm with hdm | hdm
-      · exact hl d hdm
-      · subst hdm
-        rcases hk with hk | hk <;> simp only [HSt.refresh] at hk <;> simp [hk, isLate]
-    · simp [stepH, stepSpec, erase, HSt.refresh]
+    intro d hd c
+    simp only [stepH, HSt.refresh, HSt.leave, List.mem_append, List.mem_cons, List.not_mem_nil, or_false] at hd
+    rcases hd with hd | hd
+    · exact hn d hd c
+    · subst hd
+      cases k <;> simp only [bindingOf] <;> (try split) <;> simp
   | use i via x =>
-    have hv : via = .eval := by cases via <;> simp [DomEv] at hd <;> rfl
-    subst hv
-    cases hg : h.defs[i]? with
-    | none =>
-      refine ⟨?_, ?_⟩
-      · intro d hdm; simp [stepH, HSt.refresh, hg] at hdm; exact hl d hdm
-      · simp [stepH, stepSpec, erase, HSt.refresh, hg]
-    | some d0 =>
-      have hm : d0 ∈ h.defs := List.mem_of_getElem? hg
-      have ha := late_alive h d0 (hl d0 hm)
-      have hg' : (h.refresh Expected.C10.facts).defs[i]? = some d0 := by simpa [HSt.refresh] using hg
-      refine ⟨?_, ?_⟩
-      · intro d hdm
-        simp only [stepH, hg', ha, if_true] at hdm
-        rcases List.mem_or_eq_of_mem_set hdm with hdm | hdm
-        · exact hl d (by simpa [HSt.refresh] using hdm)
-        · subst hdm; exact hl d0 hm
-      · simp only [stepH, hg', ha, if_true]
-        simp [stepSpec, erase, HSt.refresh, hg, List.map_set, value]
+    intro d hd c
+    rcases use_defs F h i via x with he | ⟨d0, hg, he⟩
+    · rw [he] at hd; exact hn d hd c
+    · rw [he] at hd
+      rcases List.mem_or_eq_of_mem_set hd with hd | hd
+      · exact hn d hd c
+      · subst hd
+        exact hn d0 (List.mem_of_getElem? hg) c
   | cancelled c =>
-    refine ⟨?_, ?_⟩
-    · intro d hdm
-      cases c <;> simp only [stepH, HSt.refresh] at hdm <;> exact hl d hdm
-    · cases c <;> simp [stepH, stepSpec, erase, HSt.refresh]
+    intro d hd c'
+    cases c <;> simp only [stepH, HSt.refresh, HSt.leave] at hd <;> exact hn d hd c'
 
-theorem dom_run (evs : List Ev) (h : HSt) (hd : Dom evs = true) (hl : AllLate h) :
+/-- when the root frame is in step with the interpreter EVERY definition runs, however it is bound: the frame of a
+    named function takes the id of the (root) frame that calls it, the frame of a closure, of a method value and of
+    a function handed to the host takes the root frame's id (`newCallFrame`) -/
+theorem synced_alive (h : HSt) (d : Def) (hs : Synced h) (hb' : ∀ c, d.binding ≠ .fixed .call c) :
+    alive Expected.C10.facts h d = true := by
+  unfold Synced at hs
+  cases hb : d.binding with
+  | callee => simp [alive, useFrameId, hb, guardOk, newId, Expected.C10.facts, Expected.C09.facts, hs]
+  | root => simp [alive, useFrameId, hb, guardOk, newId, Expected.C10.facts, Expected.C09.facts, hs]
+  | fixed s c =>
+    cases s with
+    | call => exact absurd hb (hb' c)
+    | _ => simp [alive, useFrameId, hb, guardOk, newId, RunIdFacts.site, Expected.C10.facts, Expected.C09.facts, hs]
+
+/-- a package imported between two events is initialised (and would be even without the deferred refresh: `importSrc`
+    refreshes the root id itself, 2667a11) -/
+theorem import_runs (h : HSt) : importRuns Expected.C10.facts h = true := by
+  simp [importRuns, guardOk, Expected.C10.facts, Expected.C09.facts]
+
+theorem refresh_synced (h : HSt) (hs : Synced h) : h.refresh Expected.C10.facts = h := by
+  obtain ⟨id, rootId, defs, results⟩ := h
+  unfold Synced at hs
+  simp only at hs
+  simp [HSt.refresh, Expected.C10.facts, Expected.C09.facts, hs]
+
+theorem erase_leave (F : RunIdFacts) (h : HSt) : erase (h.leave F) = erase h := rfl
+
+/-- what a use does once the root id is settled -/
+def useBody (F : RunIdFacts) (h1 : HSt) (i x : Nat) : HSt :=
+  match h1.defs[i]? with
+  | none => h1
+  | some d =>
+    if alive F h1 d then
+      { h1 with defs := h1.defs.set i { d with calls := d.calls + 1 }, results := value d x :: h1.results }
+    else
+      { h1 with results := 0 :: h1.results }
+
+theorem stepH_use_eval (F : RunIdFacts) (h : HSt) (i x : Nat) :
+    stepH F h (.use i .eval x) = (useBody F (h.refresh F) i x).leave F := rfl
+theorem stepH_use_host (F : RunIdFacts) (h : HSt) (i x : Nat) :
+    stepH F h (.use i .host x) = useBody F h i x := rfl
+
+theorem useBody_spec (h : HSt) (i x : Nat) (via : Via) (hs : Synced h) (hf : FvBound h) :
+    erase (useBody Expected.C10.facts h i x) = stepSpec (erase h) (.use i via x) := by
+  unfold useBody
+  cases hg : h.defs[i]? with
+  | none => simp [stepSpec, erase, hg]
+  | some d0 =>
+    simp only [synced_alive h d0 hs (hf d0 (List.mem_of_getElem? hg)), if_true]
+    simp [stepSpec, erase, hg, List.map_set, value]
+
+/-- one event of the real history is one event of the specification, for EVERY event -/
+theorem full_step (h : HSt) (ev : Ev) (hs : Synced h) (hf : FvBound h) :
+    erase (stepH Expected.C10.facts h ev) = stepSpec (erase h) ev := by
+  cases ev with
+  | define k a b =>
+    cases k <;> simp [stepH, stepSpec, erase, HSt.refresh, HSt.leave, import_runs]
+  | use i via x =>
+    cases via with
+    | eval => rw [stepH_use_eval, erase_leave, refresh_synced h hs]; exact useBody_spec h i x .eval hs hf
+    | host => rw [stepH_use_host]; exact useBody_spec h i x .host hs hf
+  | cancelled c =>
+    cases c <;> simp [stepH, stepSpec, erase, HSt.refresh, HSt.leave]
+
+theorem full_run (evs : List Ev) (h : HSt) (hs : Synced h) (hf : FvBound h) :
     erase (runHist Expected.C10.facts h evs) = runSpec (erase h) evs := by
   induction evs generalizing h with
   | nil => rfl
   | cons e es ih =>
-    simp only [Dom, List.all_cons, Bool.and_eq_true] at hd
-    have hs := dom_step h e hd.1 hl
     simp only [runHist, runSpec, List.foldl_cons]
-    rw [← hs.2]
-    exact ih _ hd.2 hs.1
+    rw [← full_step h e hs hf]
+    exact ih _ (synced_step h e hs) (fvBound_step _ h e hf)
 
-/-- a closure (or a method value made inside a function) whose captured id is behind the interpreter's id never
-    runs again: the ids only grow -/
+theorem synced_run (evs : List Ev) (h : HSt) (hs : Synced h) : Synced (runHist Expected.C10.facts h evs) := by
+  induction evs generalizing h with
+  | nil => exact hs
+  | cons e es ih => exact ih _ (synced_step h e hs)
+
+theorem fvBound_run (F : RunIdFacts) (evs : List Ev) (h : HSt) (hs : FvBound h) : FvBound (runHist F h evs) := by
+  induction evs generalizing h with
+  | nil => exact hs
+  | cons e es ih => exact ih _ (fvBound_step F h e hs)
+
+/-- the ids only grow -/
 theorem id_monotone (F : RunIdFacts) (h : HSt) (ev : Ev) : h.id ≤ (stepH F h ev).id := by
   cases ev with
-  | define k a b => simp [stepH, HSt.refresh]
+  | define k a b => simp [stepH, HSt.refresh, HSt.leave]
   | use i via x =>
     have : (stepH F h (.use i via x)).id = h.id := by
-      cases via <;> simp only [stepH, HSt.refresh] <;> (repeat' split) <;> rfl
+      cases via <;> simp only [stepH, HSt.refresh, HSt.leave] <;> (repeat' split) <;> rfl
     omega
   | cancelled c =>
-    cases c <;> simp only [stepH, HSt.refresh] <;> split <;> simp
-
+    cases c <;> simp only [stepH, HSt.refresh, HSt.leave] <;> split <;> simp
 
 end YaegiVerif.Proofs.C10
